@@ -57,7 +57,10 @@ def stripPrefixDot (name : Str) (path : Str) : Option Str :=
   if startsWith (name ++ ['.']) path then some (path.drop (name.length + 1)) else none
 
 /-- scope.lexical_get on the innermost scope of `chain`.  Returns the object found and the chain of
-    the scope that contains it. -/
+    the scope that contains it.  `fuel`: the measure `2*|path| + |chain|` strictly decreases in every
+    recursive call (a descent consumes at least two characters of the path and adds one level, a step
+    outward removes one level), so `2*|path| + |chain| + 1` is always adequate; `resolveWords` calls it
+    with exactly that. -/
 def lexicalGet : Nat → Chain → Str → Nat → Bool → Option (Obj × Chain)
   | 0, _, _, _, _ => none
   | fuel + 1, chain, path, stopId, searchUp =>
@@ -105,7 +108,7 @@ def resolveWords (env : Env) : Nat → Chain → Nat → List Word → Bool → 
             | .lit s => .ok (rs ++ [[wordDq s]])
             | .var name =>
               let found : R (Option (List Word)) :=
-                match lexicalGet (fuel + 1) chain name id true with
+                match lexicalGet (2 * name.length + chain.length + 1) chain name id true with
                 | some (.defn m ws, ch) =>
                   (match m.id with
                    | some sid => (resolveWords env fuel ch sid ws false).map some
